@@ -769,3 +769,27 @@ func (d *Disk) NonZeroExtents() [][2]int64 {
 	}
 	return out
 }
+
+// MaxWrittenEndIn returns the end offset of the highest non-zero byte inside [off, off+n) (off if none).
+func (d *Disk) MaxWrittenEndIn(off, n int64) int64 {
+	best := off
+	for k, pg := range d.pages {
+		base := k * PageSize
+		if base+PageSize <= off || base >= off+n {
+			continue
+		}
+		for i := PageSize - 1; i >= 0; i-- {
+			p := base + int64(i)
+			if p < off || p >= off+n {
+				continue
+			}
+			if pg.data[i] != 0 {
+				if p+1 > best {
+					best = p + 1
+				}
+				break
+			}
+		}
+	}
+	return best
+}
